@@ -60,6 +60,7 @@ structure Once where
   kept : List UInt64
   toks : List Tok
   evs : List Ev
+  overran : Bool
 deriving Inhabited
 
 /-- `checkOnce(t, prop)`: prop, failOnError, deferred cleanup, deferred recover.  A panic in a
@@ -77,7 +78,7 @@ def checkOnce (p : Prog) (src : Src) (ts : TS) : Once :=
         | some (.invalid _) => some (.stop m sitePending)
         | some e => some e)
     | none => err0
-  ⟨err, { c.ts with failed := none }, o.src, o.used, o.kept, o.toks, o.evs ++ c.evs⟩
+  ⟨err, { c.ts with failed := none }, o.src, o.used, o.kept, o.toks, o.evs ++ c.evs, o.overran⟩
 
 /-- `traceback(err)` as a comparable key -/
 def tbKey : Option Err → Option (Bool × Nat)
